@@ -319,8 +319,9 @@ def r12_4(ck):
         ck.require(('truthy', 'self.emit') in g, 'R12.4', f, r,
                    'a leaf value is returned only when its emit flag is set',
                    'a leaf value is emitted regardless of its _emit flag', r)
-        if ('truthy', 'self.serializer') in g and ('truthy',
-                                                   'self.units') in g:
+        if ('truthy', 'self.serializer') in g and ('falsy',
+                                                   'self.units') not in g:
+            # reachable with units set: the value must be converted
             ok = '.to(self.units)' in A.unparse(v) and 'serialize(' in \
                 A.unparse(v)
             ck.require(ok, 'R12.4', f, r,
